@@ -197,6 +197,14 @@ def gen (seed n : Nat) (tier : String) (emit : String → IO Unit) : IO Unit := 
   for i in List.range 32 do
     for v in [0x00, 0x01, 0xff, 0x52] do
       emit s!"raw {hexOfBytes (d3.set i v)}"
+  -- every byte string over {00,01,02} of length <= 6 (quick) / <= 8 (thorough) behind a valid header:
+  -- all small combinations of id, flags bit 0, length bytes (0, 1, 2, 256, 257, 258, 512, ...) and payload
+  let maxLen := if tier == "thorough" then 8 else 6
+  let mut level : List Bytes := [[]]
+  for _ in List.range (maxLen + 1) do
+    for t in level do
+      emit s!"raw {hexOfBytes (RtpsSpec.encodeHdr hdr0 ++ t)}"
+    level := level.flatMap fun t => [0x00 :: t, 0x01 :: t, 0x02 :: t]
   -- non-well-formed packet values, encoded: a zero length field that is not last, lengths that lie
   emit s!"raw {hexOfBytes (RtpsSpec.encode ⟨hdr0, [mkSub 0x15 1 0 [], mkSub 0x09 1 2 [1, 2]]⟩)}"
   emit s!"raw {hexOfBytes (RtpsSpec.encode ⟨hdr0, [mkSub 0x15 1 0 [9, 9], mkSub 0x09 0 2 [1, 2]]⟩)}"
